@@ -458,6 +458,7 @@ class Impl:
                 raise ValueError('unknown op ' + k)
             res = [0, ans]
         except Exception as e:  # noqa
+            self.last_exc = '%s: %s' % (type(e).__name__, e)
             n = type(e).__name__
             if n in H2EXN and isinstance(e, self._h2error()):
                 idx = H2EXN.index(n)
